@@ -277,6 +277,13 @@ def r7(rep, prog):
     if b is None:
         return
     gets = [(bi, t) for bi, t in b.calls() if (t.get("f") or "").endswith("BTreeMap::<K, V, A>::get")]
+    if not gets:
+        # the lookup may be done by the caller, which then hands try_add_token the score it found
+        for cb_, cbi, ct in prog.who_calls({fid}):
+            g2 = [(bi, t) for bi, t in cb_.calls() if (t.get("f") or "").endswith("BTreeMap::<K, V, A>::get")]
+            if g2 and "::tests::" not in cb_.id:
+                b, gets = cb_, g2
+                break
     if not rep.check(len(gets) == 1, R, "try_add_token looks the token up once", "1 BTreeMap::get", "expected one BTreeMap::get in try_add_token, found %d" % len(gets), site=b.span):
         return
     bi, t = gets[0]
@@ -456,7 +463,7 @@ def r3(rep, prog):
         (SN + "SnippetGenerator::snippet", "P3", "index"): (1, "&fragment_candidates[..]: the full range never panics"),
         (SN + "merge_overlapping_ranges", "P1", "panic"): (1, "debug_assert!(is_sorted): the only caller, collapse_overlapped_ranges, sorts first (sort_and_deduplicate_ranges)"),
     }
-    TABLE = panics.fold_table(TABLE)
+    TABLE = panics.fold_table(TABLE, prog)
     for k, sites_ in sorted(inv.items()):
         fid, cls, kind = k
         key = "%s: %s %s" % (short(fid), cls, kind)
